@@ -359,14 +359,14 @@ Proof.
   apply P_emit; [reflexivity|exact HP].
 Qed.
 
-Lemma lost_tail_P rc fb s : P s -> P (fst (lost_tail nested rc fb s)).
+Lemma lost_P r rc fb s : P s -> P (fst (lost c nested r rc fb s)).
 Proof.
-  intros HP. unfold lost_tail. destruct (disc_state s); cbn [fst];
-    apply do_on_disconnect_P; apply P_set_cs; exact HP.
+  intros HP. unfold lost. destruct (disc_state s); cbn [fst];
+    apply do_on_disconnect_P; apply sock_close_P; apply P_set_cs; exact HP.
 Qed.
 
 Lemma loop_rc_handle_P rc s : P s -> P (fst (loop_rc_handle c nested rc s)).
-Proof. intros HP. unfold loop_rc_handle. apply lost_tail_P. apply sock_close_P. exact HP. Qed.
+Proof. intros HP. unfold loop_rc_handle. apply lost_P. exact HP. Qed.
 
 (* putting a packet back at the head *)
 Lemma push_front_P p s : P0 s -> (c_ext c = true -> sock s <> None -> regw s = true) -> P (push_front p s).
@@ -412,6 +412,8 @@ Proof.
       * cbn [fst].
         assert (HP3 : P (do_on_disconnect nested 0 false (emit (Tx id KDisconnect) s1))) by (apply do_on_disconnect_P; exact HP2).
         pose proof (sock_close_P RDiscWritten _ HP3) as HP4.
+        destruct (sock (do_on_disconnect nested 0 false (emit (Tx id KDisconnect) s1))) as [id'|]; [|exact HP3].
+        destruct (id' =? id); [|exact HP3].
         destruct (cs (sock_close c nested RDiscWritten (do_on_disconnect nested 0 false (emit (Tx id KDisconnect) s1))));
           try exact HP4. apply P_set_cs. exact HP4.
       * apply IH. apply run_site_P; [intros _; exact HP2|]. apply P_emit; [reflexivity|exact HP2].
@@ -442,7 +444,7 @@ Qed.
 Lemma packet_queue_P k s : P s -> P (fst (packet_queue c nested k s)).
 Proof.
   intros [H0 Hw]. unfold packet_queue.
-  set (s1 := set_outq (outq s ++ [mkQ k false]) s).
+  set (s1 := set_outq (match k with KConnect => mkQ k false :: outq s | _ => outq s ++ [mkQ k false] end) s).
   assert (H1 : P0 s1) by (apply P0_set_outq; exact H0).
   destruct (negb (c_ext c) && negb (incb s1)) eqn:E.
   - apply loop_write_P. split; [exact H1|]. unfold WW. intros A. apply andb_true_iff in E as [E _].
@@ -524,14 +526,15 @@ Qed.
 Lemma after_read_P r : P (fst r) -> P (fst (after_read c nested r)).
 Proof.
   destruct r as [s [rc|]]; cbn [fst after_read]; intros HP; [|exact HP].
-  destruct (rc >? 0); [|exact HP].
+  destruct (rc >? 0); [|exact HP]. destruct (sock s); [|exact HP].
   pose proof (loop_rc_handle_P rc s HP) as H. destruct (loop_rc_handle c nested rc s). exact H.
 Qed.
 
 Lemma handle_connack_P rc s : P s -> P (fst (handle_connack nested rc s)).
 Proof.
   intros HP. unfold handle_connack. cbn [fst].
-  assert (H1 : P (if rc =? 0 then set_cs CsConnected s else s)) by (destruct (rc =? 0); [apply P_set_cs|]; exact HP).
+  assert (H1 : P (if rc =? 0 then match cs s with CsDisconnecting => s | _ => set_cs CsConnected s end else s)).
+  { destruct (rc =? 0); [|exact HP]. destruct (cs s); try exact HP; apply P_set_cs; exact HP. }
   apply run_site_P; [intros _; exact H1|apply P_emit; [reflexivity|exact H1]].
 Qed.
 
@@ -541,8 +544,8 @@ Proof. intros HP. unfold downgrade. apply reconnect_body_P. apply P_set_proto. e
 Lemma handle_server_disconnect_P rc s : P s -> P (fst (handle_server_disconnect c nested rc s)).
 Proof.
   intros HP. unfold handle_server_disconnect.
-  pose proof (lost_tail_P rc true _ (sock_close_P RServerDisc s HP)) as H.
-  destruct (lost_tail nested rc true (sock_close c nested RServerDisc s)). exact H.
+  pose proof (lost_P RServerDisc rc true s HP) as H.
+  destruct (lost c nested RServerDisc rc true s). exact H.
 Qed.
 
 Lemma loop_read_P i s : P s -> P (fst (loop_read c nested i s)).
@@ -561,7 +564,7 @@ Proof.
 Qed.
 
 Lemma keepalive_close_P s : P s -> P (keepalive_close c nested s).
-Proof. intros HP. unfold keepalive_close. apply lost_tail_P. apply sock_close_P. exact HP. Qed.
+Proof. intros HP. unfold keepalive_close. apply lost_P. exact HP. Qed.
 
 Lemma check_keepalive_P m s : P s -> P (check_keepalive c nested m s).
 Proof.
